@@ -892,6 +892,24 @@ pub fn run(thorough: bool, mut rng: Rng, mut out: Out) {
         out.r("envelope.no-panic", got != "panic" && got != "incomplete", &got);
     }
 
+    // ---- well-formed response values the structs cannot represent (known findings F17, F18):
+    // the property oracle is kept strict; these are matched by known_findings.json
+    {
+        // RFC 5805: the StartTxn responseValue is an opaque transaction identifier
+        for v in [vec![0xffu8], vec![0xc3, 0x28], vec![0x00, 0x80, 0x01]] {
+            let vv = v.clone();
+            let got = parse_outcome(move || Exop { name: None, val: Some(vv) }.parse::<StartTxnResp>(), |r| hex(r.txn_id.as_bytes()));
+            out.case(&format!("wf-starttxn {}", hex(&v)), true);
+            out.r(&format!("codecs.wellformed-response-parses StartTxnResp opaque-identifier {}", hex(&v)), got == hex(&v), &got);
+        }
+        // RFC 3062: PasswdModifyResponseValue ::= SEQUENCE { genPasswd [0] OCTET STRING OPTIONAL }
+        for (what, v) in [("genPasswd-absent", vec![0x30u8, 0x00]), ("genPasswd-not-utf8", vec![0x30, 0x03, 0x80, 0x01, 0xff])] {
+            let vv = v.clone();
+            let got = parse_outcome(move || Exop { name: None, val: Some(vv) }.parse::<PasswordModifyResp>(), |r| format!("ok {}", hex(r.gen_pass.as_bytes())));
+            out.case(&format!("wf-passmod {}", hex(&v)), true);
+            out.r(&format!("codecs.wellformed-response-parses PasswordModifyResp {} {}", what, hex(&v)), got.starts_with("ok"), &got);
+        }
+    }
     out.finish("every request control / extended request struct: all optional-field combinations x cookie lengths {0,1,127,128,300} x random contents, sizes {0,1,127,128,255,256,...,2^31-1} and random; filters from a corpus plus a random generator; response values encoded by the lane's RFC encoder with random non-minimal length forms and explicit/omitted DEFAULT elements; arbitrary and mutated trees for the panic outcomes; control lists of 0-4 random controls through verif_encode -> verif_decode and in alternative RFC 4511 encodings; non-trivial = at least one optional field / non-empty cookie / non-empty list; distinct by FNV hash of the canonical input");
 }
 
